@@ -15,6 +15,22 @@ class ExtentError(IndexError):
     pass
 
 
+class LoopBudgetError(RuntimeError):
+    """a `while` loop of the transliterated source ran past the iteration budget with concrete loop variables: it does not terminate"""
+
+
+LOOP_BUDGET = 200000
+_LOOP_COUNT = {}
+
+
+def _loop_tick(site):
+    n = _LOOP_COUNT.get(site, 0) + 1
+    _LOOP_COUNT[site] = n
+    if n > LOOP_BUDGET:
+        _LOOP_COUNT[site] = 0
+        raise LoopBudgetError('while loop at %s exceeded %d iterations' % (site, LOOP_BUDGET))
+
+
 VIOLATIONS = []      # out-of-extent accesses recorded in lenient mode
 STRICT = [True]
 
@@ -478,4 +494,4 @@ def translit_function(src, qual, newname=None):
     return code, span
 
 
-RUNTIME = {'CArr': CArr, 'Ptr': Ptr, 'Ref': Ref, 'addr': addr, 'ExtentError': ExtentError, 'prange': range, '_cint': _cint, '_cstr': _cstr, '_memview_cast': _memview_cast}
+RUNTIME = {'CArr': CArr, 'Ptr': Ptr, 'Ref': Ref, 'addr': addr, 'ExtentError': ExtentError, 'prange': range, '_cint': _cint, '_cstr': _cstr, '_memview_cast': _memview_cast, '_loop_tick': _loop_tick}
